@@ -326,7 +326,7 @@ def regions(desc, value, ctx=None, inherit=True):
                 if tokens:
                     tok_check(x["list"])  # (an empty token text of an xsi:nil element stays []: repair c01g-08)
                 elif x is None:
-                    if not (nl or cn) and dflt is not None:
+                    if not cn and dflt is not None:  # (only a nillable class: repair c01g-03)
                         out.append(TYPING[1])
                 elif "str" in x and x["str"] == "" and dflt != "":
                     out.append(EMPTY_TEXT)
